@@ -3,9 +3,9 @@
        instantiated with the synchronisation table the translator extracts from the source.
    (b) Model/AggLoop.v + Proofs/AggLoopProof.v: the aggregation loop on top of the pipeline of C01,
        every schedule.   (c) Model/ObjPool.v: the object pool. *)
-From Coq Require Import List NArith Arith Permutation Bool.
+From Coq Require Import List NArith Arith Permutation Bool String.
 From RareV Require Import Base.Hex Model.Batch Model.Pipeline Model.AggLoop Model.Sync Model.ObjPool
-  Proofs.PipelineProof Proofs.AggLoopProof Proofs.SyncProof Proofs.ObjPoolProof Gen.GenSync.
+  Proofs.PipelineProof Proofs.AggLoopProof Proofs.SyncProof Proofs.ObjPoolProof Gen.GenSync Gen.GenOrder.
 Import ListNotations.
 
 (* (a) a well-formed trace (mutual exclusion as the runtime provides it) in which every location
@@ -22,13 +22,20 @@ Print Assumptions C05_table_sound.
    (shared holds read only), or written only in its constructor *)
 Theorem C05_discipline : table_ok sync_table sync_nlocs = true.
 Proof. vm_compute. reflexivity. Qed.
-Theorem C05_discipline_nonempty : 15 <= sync_nlocs /\ 40 <= length sync_table.
+Theorem C05_discipline_nonempty : 15 <= sync_nlocs /\ 40 <= List.length sync_table.
 Proof. vm_compute. split; repeat constructor. Qed.
 
 (* hence: no data race in any trace that obeys the extracted table *)
 Theorem C05_race_free : forall tr, wf tr -> obeys sync_table tr -> locs_below tr sync_nlocs -> ~ race tr.
 Proof. intros tr. exact (table_sound sync_table sync_nlocs tr C05_discipline). Qed.
 Print Assumptions C05_race_free.
+
+(* translator obligation for (b): the model counts a line (s_wline: readLines, matchedLines, ignoredLines)
+   BEFORE the worker sends its matches on readChan (s_wsend); the source must do the same: the
+   counters are updated only in processLineSync, which asyncWorker calls before the send *)
+Theorem C05_counters_before_send :
+  counter_update_functions = ["processLineSync"%string] /\ worker_processes_before_send = true.
+Proof. vm_compute. split; reflexivity. Qed.
 
 (* (b) every reachable state of pipeline + aggregation loop + ticker, every schedule *)
 Definition reachable K classify c srcs nw x := creach K classify c (init K srcs nw, loop0 K) x.
@@ -75,7 +82,7 @@ Qed.
    at most the final count - and a matched total not below the number of samples shown *)
 Theorem C05_monotone_renders : forall K classify c srcs nw x, nw >= 1 -> reachable K classify c srcs nw x ->
   forall snap mc, In (snap, mc) (renders K (snd x)) ->
-  (exists rest, sampled K (snd x) = snap ++ rest) /\ length snap <= mc.
+  (exists rest, sampled K (snd x) = snap ++ rest) /\ List.length snap <= mc.
 Proof.
   intros K classify c srcs nw x Hn Hr.
   exact (renders_monotone K classify (input_of srcs) (errors_of srcs) x (creach_inv K classify c srcs nw x Hn Hr)).
